@@ -83,7 +83,7 @@ PROPS = {
         'explanation': "glob_to_regex (body verbatim, real String/Chars) returns exactly tr(pattern), the structural translation written from the statement and POSIX: '?' -> '.', '*' -> '.*', a quoted or ordinary character -> itself with the BRE specials escaped, a bracket expression copied, an unmatched '[' literal, a lone trailing backslash -> no pattern (never matches), no other character special; Pattern::{new, matches} pass the caseless flag through and decide by a whole-string match; the bracket scanner extract_bracket_expr is verified panic-free and terminating for every pattern, returning a proper suffix (unit globscan).",
         'assumptions': ["onig's posix_basic syntax implements POSIX BRE (dot matches newline), accepts every translated glob, and Regex::is_match decides whole-string membership for these alternation-free patterns (argument in DESIGN section 6)",
                         'extract_bracket_expr is a pure function of its argument (in unit glob it is the uninterpreted function `bracket`; bounds proved in unit globscan)',
-                        'which text each primary hands to Pattern::matches (last component / whole path / link target) is read off name.rs, path.rs, lname.rs: adapter code, matched textually only'],
+                        'which text each primary hands to Pattern::matches is decided in unit globsubj for -name/-iname (NameMatcher::{new, matches}: the pattern compiled as given, the last path component as printed, "/" for a root spelled with several slashes) and -path/-ipath (PathMatcher::{new, matches}: the whole path as printed), and in unit entry for -lname; assumed there: WalkEntry::file_name is the last component, to_string_lossy is the text -print shows, `len() > 1 && chars().all(== /)` is the only-slashes test (R9 helpers)'],
         'not_decided': ['validity of a bracket expression (parse_bre, onig)', "D21: backslash inside a bracket expression differs from glibc fnmatch ('[\\]]'), outside the statement's well-formed bracket expressions"],
     },
     'C16': {
@@ -163,6 +163,7 @@ DEPENDS = {
     'C07': ['C05', 'C04', 'C18'],          # xargs -0 splitting; "delivers every matched path exactly once" presupposes the batching and its cost model
     'C20': ['C05'],
     'C06': ['C04'],
+    'C04': ['C05'],                 # "nothing lost, duplicated, merged or split" end to end: the input argument sequence is what the reader yields (seed C04-12: an empty quoted argument at end of input dropped by the reader)
     'C19': ['C05'],                 # "unterminated quote ... give exit status 1": the reader decides what is unterminated
 }
 for pid, d in DEPENDS.items():
